@@ -1,6 +1,6 @@
 SPECIFICATION Spec
 CONSTANTS
-  MaxN = 9
+  MaxN = 11
   NameSet = {"a", "b"}
   Prefixes = {"x", "y"}
   Uris = {"u", "v"}
